@@ -843,3 +843,45 @@ Section Run.
     destruct (proj2 (code_ok_from_nth _ _ _ Hok) _ _ Hr) as (z & Hz & _). discriminate.
   Qed.
 End Run.
+
+(* ------------------------------------------------------------------ the translated program is a well-formed source program of C03 *)
+Lemma t_fcmd_shape : forall x a, t_fcmd x = Some a -> cmd_shape_q a = true.
+Proof.
+  intros x a H. destruct x as [i|cnd x y l|l|l].
+  - destruct i as [[b i] z|o [b i]|ax [b i] n d|t [b1 i1] [b2 i2]|[bq iq] [bm im]|v a0 ix|[b i] a0 ix|[b i] [bx ix] y
+                  |[b i] [bx ix] y m|n a0|a0|[b i]|k]; cbn [t_fcmd t_instr] in H; try discriminate.
+    + inversion H. reflexivity.
+    + destruct o as [| | |g]; inversion H; try reflexivity. destruct g; reflexivity.
+    + inversion H. destruct ax; reflexivity.
+    + inversion H. destruct t; reflexivity.
+    + inversion H. reflexivity.
+    + inversion H. destruct v as [z|[b i]]; destruct ix as [z'|[b' i']]; reflexivity.
+    + inversion H. destruct ix as [z'|[b' i']]; reflexivity.
+    + inversion H. destruct y as [z|[b' i']]; reflexivity.
+    + inversion H. destruct y as [z|[b' i']]; reflexivity.
+    + inversion H. reflexivity.
+    + inversion H. reflexivity.
+    + inversion H. reflexivity.
+  - destruct cnd; cbn [t_fcmd] in H; inversion H; destruct x as [z|[b i]]; destruct y as [z'|[b' i']]; reflexivity.
+  - cbn in H. inversion H. reflexivity.
+  - cbn in H. inversion H. reflexivity.
+Qed.
+
+Lemma t_prog_wf : forall c P, t_prog c = Some P -> wf_src_q P = true.
+Proof.
+  induction c as [|x c IH]; intros P H; cbn in H.
+  - inversion H. reflexivity.
+  - destruct (t_fcmd x) as [a|] eqn:Ea; [|discriminate]. destruct (t_prog c) as [P'|] eqn:Ep; [|discriminate].
+    inversion H; subst P. unfold wf_src_q. cbn [forallb]. rewrite (t_fcmd_shape _ _ Ea). apply (IH _ eq_refl).
+Qed.
+
+(* fresh application: related initial states *)
+Lemma lrel_init : forall cap script, lrel (G.m0 script) (init_qstate cap script).
+Proof.
+  intros cap script. constructor; cbn.
+  - reflexivity.
+  - reflexivity.
+  - intro k. revert k. induction cap as [|n IH]; intros [|k]; cbn; auto.
+  - reflexivity.
+  - repeat split.
+Qed.
